@@ -94,20 +94,14 @@ impl<'a> ser::Serializer for W<'a> {
         self.out.push_str(if v { "true" } else { "false" });
         Ok(())
     }
+    // scalars have no length hints: floats are formatted by serde_json itself so that the digits are
+    // the ones the reference rendering uses
     fn serialize_f32(self, v: f32) -> Result<(), Error> {
-        if v.is_finite() {
-            let _ = write!(self.out, "{v:?}");
-        } else {
-            self.out.push_str("null");
-        }
+        self.out.push_str(&serde_json::to_string(&v).map_err(|e| Error(e.to_string()))?);
         Ok(())
     }
     fn serialize_f64(self, v: f64) -> Result<(), Error> {
-        if v.is_finite() {
-            let _ = write!(self.out, "{v:?}");
-        } else {
-            self.out.push_str("null");
-        }
+        self.out.push_str(&serde_json::to_string(&v).map_err(|e| Error(e.to_string()))?);
         Ok(())
     }
     fn serialize_char(self, v: char) -> Result<(), Error> {
